@@ -10,4 +10,8 @@ r = json.load(open('registry.json'))
 print(' '.join(sorted({m for e in r.values() if not e.get('disabled') for m in e['lean_modules']})))")
 (cd lean && lake build $MODS sldriver)
 (cd harness && cargo build --release --offline)
+# C18: skeleton translator (also built on demand by tools/gen_params.py) and the coverage-instrumented harness
+(cd tools/ctskel && cargo build --release --offline)
+cp -n /repo/Cargo.lock harness-cov/Cargo.lock 2>/dev/null || true
+(cd harness-cov && cargo +nightly build --release --offline)
 echo "setup done"
